@@ -348,40 +348,63 @@ let compile_case (line : string) : string =
   | [X.List (X.Atom "ast" :: main :: _)] ->
     (try
        let p = normalize (program_of main) in
-       (* tables: every integer literal and every tuple-literal shape of the (normalised) program *)
+       (* tables: every integer literal, every tuple-literal shape, every function body and every
+          name bound to a function literal in the (normalised) program *)
        let pool = ref [] and shapes = ref [ (None, []); (Some a_Ok, []) ] in
+       let bodies = ref [] and funnames = ref [] in
        let add_z z = if not (List.mem z !pool) then pool := !pool @ [z] in
        let add_shape sh = if not (List.mem sh !shapes) then shapes := !shapes @ [sh] in
        let rec term (t : term) = match t with
          | Literal (LInteger z) -> add_z z
+         | Match (MLiteral (LInteger z)) -> add_z z
          | Tuple (name, fs) ->
            List.iter (function TupleField (_, FChain c) -> chain c | _ -> ()) fs;
            add_shape ((match name with Named a -> Some a | _ -> None), List.map (fun (TupleField (l, _)) -> l) fs)
+         | Block e -> expr e
+         | Function (_, _, _, Some body) ->
+           expr body; if not (List.mem body !bodies) then bodies := !bodies @ [body]
          | _ -> ()
-       and chain (Chain (_, ts)) = List.iter term ts in
+       and expr (Expression bs) =
+         List.iter (fun (Branch (Sequence cs, k)) ->
+             List.iter chain cs; (match k with Some (Sequence ks) -> List.iter chain ks | None -> ())) bs
+       and chain (Chain (mp, ts)) =
+         (match mp, ts with
+          | Some (MIdentifier f), [Function _] -> if not (List.mem f !funnames) then funnames := f :: !funnames
+          | _ -> ());
+         List.iter term ts in
        List.iter (function StmtExpression (Sequence cs) -> List.iter chain cs | _ -> ()) p;
-       match compile_program !pool !shapes p with
-       | None -> "(not-in-fragment)"
-       | Some code ->
-         let nat_int n = let rec go n acc = match n with O -> acc | S m -> go m (acc + 1) in go n 0 in
-         let instr (i : instr) = match i with
-           | IConstant k -> "(const " ^ string_of_z (List.nth !pool (nat_int k)) ^ ")"
-           | ITuple t ->
-             let (nm, ls) = List.nth !shapes (nat_int t) in
-             "(tuple " ^ (match nm with Some a -> name_of a | None -> "-") ^ " (" ^
-             String.concat " " (List.map (function Some a -> name_of a | None -> "-") ls) ^ "))"
-           | IPop -> "(pop)" | IDuplicate -> "(dup)"
-           | IPick n -> "(pick " ^ string_of_int (nat_int n) ^ ")"
-           | IRotate n -> "(rot " ^ string_of_int (nat_int n) ^ ")"
-           | IReset n -> "(reset " ^ string_of_int (nat_int n) ^ ")"
-           | ILoad n -> "(load " ^ string_of_int (nat_int n) ^ ")"
-           | IStore -> "(store)"
-           | IGet n -> "(get " ^ string_of_int (nat_int n) ^ ")"
-           | IJump o -> "(jmp " ^ string_of_z o ^ ")"
-           | IJumpIf o -> "(jmpif " ^ string_of_z o ^ ")"
-           | INot -> "(not)"
-           | _ -> "(other)" in
-         "(code " ^ String.concat " " (List.map instr code) ^ ")"
+       let isfun x = List.mem x !funnames in
+       let fnum body =
+         let rec idx i = function [] -> None | b :: r -> if b = body then Some (nat_of_int i O) else idx (i + 1) r in
+         idx 0 !bodies in
+       let nat_int n = let rec go n acc = match n with O -> acc | S m -> go m (acc + 1) in go n 0 in
+       let rec show (code : instr list) = "(code " ^ String.concat " " (List.map instr code) ^ ")"
+       and instr (i : instr) = match i with
+         | IConstant k -> "(const " ^ string_of_z (List.nth !pool (nat_int k)) ^ ")"
+         | ITuple t ->
+           let (nm, ls) = List.nth !shapes (nat_int t) in
+           "(tuple " ^ (match nm with Some a -> name_of a | None -> "-") ^ " (" ^
+           String.concat " " (List.map (function Some a -> name_of a | None -> "-") ls) ^ "))"
+         | IPop -> "(pop)" | IDuplicate -> "(dup)"
+         | IPick n -> "(pick " ^ string_of_int (nat_int n) ^ ")"
+         | IRotate n -> "(rot " ^ string_of_int (nat_int n) ^ ")"
+         | IReset n -> "(reset " ^ string_of_int (nat_int n) ^ ")"
+         | ILoad n -> "(load " ^ string_of_int (nat_int n) ^ ")"
+         | IStore -> "(store)"
+         | IGet n -> "(get " ^ string_of_int (nat_int n) ^ ")"
+         | IJump o -> "(jmp " ^ string_of_z o ^ ")"
+         | IJumpIf o -> "(jmpif " ^ string_of_z o ^ ")"
+         | INot -> "(not)"
+         | IEqual n -> "(equal " ^ string_of_int (nat_int n) ^ ")"
+         | ICall -> "(call)"
+         | IFunction k ->
+           (match function_code !pool !shapes isfun fnum (List.nth !bodies (nat_int k)) with
+            | Some c -> "(fn 0 " ^ show c ^ ")"
+            | None -> raise Exit)
+         | _ -> "(other)" in
+       (match compile_program !pool !shapes isfun fnum p with
+        | None -> "(not-in-fragment)"
+        | Some code -> (try show code with Exit -> "(not-in-fragment)"))
      with Failure m -> "(driver-error " ^ String.escaped m ^ ")")
   | _ -> "(skip)"
 
